@@ -750,8 +750,8 @@ func ruleR04e(c *Check) {
 					okT := false
 					why := ""
 					switch {
-					case name == "(*caching.Cas).Exists":
-						okT, why = true, "the memo only ever stores bool"
+					case syncMapHoldsOnly(c, x):
+						okT, why = true, "the value comes from a sync.Map field into which only values of the asserted type are ever stored"
 					case strings.HasPrefix(name, "console.") || strings.HasPrefix(name, "(*console.") || strings.HasPrefix(name, "(console."):
 						okT, why = true, "context values set by the console package itself / bubbletea models"
 					case strings.Contains(name, "starlark"):
@@ -766,6 +766,55 @@ func ruleR04e(c *Check) {
 			}
 		}
 	}
+}
+
+// syncMapHoldsOnly: the asserted value was loaded from a sync.Map held in a struct field, and every
+// Store/LoadOrStore/Swap into that field (anywhere in first-party code) stores a value of the asserted type.
+func syncMapHoldsOnly(c *Check, x *ssa.TypeAssert) bool {
+	fieldOf := func(recv ssa.Value) (engine.FieldKey, bool) {
+		if fa, ok := recv.(*ssa.FieldAddr); ok {
+			return engine.FieldKeyOf(fa.X.Type(), fa.Field), true
+		}
+		return engine.FieldKey{}, false
+	}
+	var key engine.FieldKey
+	found := false
+	for _, o := range engine.Origins(x.X) {
+		call, idx := engine.CallOf(o)
+		if call == nil || idx != 0 {
+			return false
+		}
+		n := engine.CalleeName(call)
+		if n != "(*sync.Map).Load" && n != "(*sync.Map).LoadOrStore" {
+			return false
+		}
+		k, ok := fieldOf(call.Common().Args[0])
+		if !ok || (found && k != key) {
+			return false
+		}
+		key, found = k, true
+	}
+	if !found {
+		return false
+	}
+	stores := 0
+	for _, s := range c.G.CallsTo("(*sync.Map).Store", "(*sync.Map).LoadOrStore", "(*sync.Map).Swap", "(*sync.Map).CompareAndSwap") {
+		k, ok := fieldOf(s.Common().Args[0])
+		if !ok || k != key {
+			// a sync.Map reached some other way: cannot be this field only if it is a field of another key
+			if !ok {
+				return false
+			}
+			continue
+		}
+		stores++
+		val := s.Common().Args[len(s.Common().Args)-1]
+		mi, ok := val.(*ssa.MakeInterface)
+		if !ok || !types.Identical(mi.X.Type(), x.AssertedType) {
+			return false
+		}
+	}
+	return stores > 0
 }
 
 func assertionGuarded(x *ssa.TypeAssert) bool {
